@@ -138,7 +138,8 @@ impl Sub<u8> for Weekday {
     type Output = Self;
     fn sub(self, rhs: u8) -> Self {
         // We can safely cast the weekdays as u8 into i8 because the maximum value is 6, and the max value of a i8 is 127.
-        Self::from(u8::from(self) as i8 - rhs as i8)
+        // The day count is reduced modulo 7 first: above 127 it does not fit in an i8.
+        Self::from(u8::from(self) as i8 - rhs.rem_euclid(Self::MAX) as i8)
     }
 }
 
